@@ -258,6 +258,9 @@ func (p *VP9Packet) Unmarshal(packet []byte) ([]byte, error) { // nolint:cyclop
 		return nil, errShortPacket
 	}
 
+	// a reused receiver must not keep fields decoded from an earlier packet
+	*p = VP9Packet{videoDepacketizer: p.videoDepacketizer}
+
 	p.I = packet[0]&0x80 != 0
 	p.P = packet[0]&0x40 != 0
 	p.L = packet[0]&0x20 != 0
